@@ -53,6 +53,12 @@ def differs_one(ctx, req, binary=None):
     return impl != model
 
 
+def _plain_equal(la, lb):
+    """answers of the build without debug assertions vs the model: equal, except where the model answers `P` (a debug
+    assertion of the code fires: `is_range_free(a >= b)` in the `ds` queries) -- there that build may answer anything."""
+    return la == lb or (len(la) == len(lb) and all(x == y or y == "P" for x, y in zip(la, lb)))
+
+
 PLAIN_CAP = 60000
 PLAIN_STRIDE = 37
 
@@ -124,7 +130,7 @@ def run_requests(ctx, tag, gen):
                 ndis += 1
                 if len(dis) < 200:
                     dis.append({"request": rq, "impl": la[:600], "model": lb[:600]})
-            elif len(plain_rq) < PLAIN_CAP and (n <= 4000 or n % PLAIN_STRIDE == 0) and tag != "ds":
+            elif len(plain_rq) < PLAIN_CAP and (n <= 4000 or n % PLAIN_STRIDE == 0):
                 plain_rq.append(rq)
                 plain_lb.append(lb)
     # the build without debug assertions (code inside `debug_assert!` is not executed there) answers a sample of the
@@ -140,7 +146,7 @@ def run_requests(ctx, tag, gen):
         for i, rq in enumerate(plain_rq):
             la = got[i] if i < len(got) - (0 if rc3 == 0 else 1) else "ABORT rc=%d" % rc3
             nplain += 1
-            if la != plain_lb[i]:
+            if not _plain_equal(la, plain_lb[i]):
                 ndis += 1
                 if len(dis) < 200:
                     dis.append({"request": rq, "impl": la[:600], "model": plain_lb[i][:600], "build": "no-debug-assertions"})
